@@ -47,6 +47,24 @@ fn gen_tags(spec: &Value, port: usize, len: usize, rng: &mut Rng) -> Vec<(usize,
             }
             return out;
         }
+        "burst_stray" => {
+            // hostile burst tags: random start/end tags in any order, repeated, adjacent,
+            // ends without a start, several on one sample, a non-bool value now and then
+            let mut p = rng.below(3);
+            while p < len {
+                let v = match rng.below(8) {
+                    0..=2 => TagValue::Bool(true),
+                    3..=6 => TagValue::Bool(false),
+                    _ => TagValue::U64(7),
+                };
+                out.push((p, "burst".to_string(), v));
+                if rng.chance(1, 5) {
+                    out.push((p, "burst".to_string(), TagValue::Bool(rng.chance(1, 2))));
+                }
+                p += rng.below(5);
+            }
+            return out;
+        }
         "first_last" => {
             push(&mut out, 0);
             push(&mut out, len - 1);
